@@ -141,7 +141,11 @@ impl<Endpoint: Ord + Clone> BlockHandler<Endpoint> {
 
         match (request_block1, maybe_response_block1) {
             (Some(request_block1), Some(response_block1)) => {
-                if state.cached_request_payload.is_none() {
+                // Block 0 starts a new upload: do not keep the remains of
+                // an earlier one that was abandoned midway.
+                if state.cached_request_payload.is_none()
+                    || request_block1.num == 0
+                {
                     state.cached_request_payload = Some(Vec::new());
                 }
                 let cached_payload =
